@@ -40,7 +40,7 @@ META = {
                   "other element types.",
     "level_note": "Trusted: TLC, the transcription of the intended semantics into Collections.tla, the concrete "
                   "instantiations (elements of one totally ordered type). Bounds: 4 elements, depth 4 (quick) / 5 "
-                  "(thorough), operand subsets 8 (quick) / 16 (thorough); observers are terminal in the TLC graph "
+                  "(thorough), operand subsets 6 (quick) / 16 (thorough); observers are terminal in the TLC graph "
                   "and fired by the replayer on the live object (full interleaving only to depth 3).",
     "design_ref": "5.6 C33",
 }
@@ -56,7 +56,7 @@ WITNESSES = {"set": ["Witness_RemoveAbsent", "Witness_XorOverlap", "Witness_PopL
 
 ALL16 = [frozenset(x) for x in ((), (1,), (2,), (3,), (4,), (1, 2), (1, 3), (1, 4), (2, 3), (2, 4), (3, 4), (1, 2, 3),
                                 (1, 2, 4), (1, 3, 4), (2, 3, 4), (1, 2, 3, 4))]
-QUICK8 = [frozenset(x) for x in ((), (1,), (4,), (2, 3), (1, 4), (1, 2, 3), (2, 3, 4), (1, 2, 3, 4))]
+QUICK6 = [frozenset(x) for x in ((), (1,), (2, 3), (1, 4), (2, 3, 4), (1, 2, 3, 4))]
 SMALL4 = [frozenset(x) for x in ((), (2,), (1, 3), (2, 3, 4))]
 
 
@@ -69,12 +69,12 @@ def constants(kind, n, operands, steps, interleave=False, max_new=2, full_map_op
 def plans(ctx):
     """(label, constants, with_property) per TLC run whose graph is replayed."""
     if ctx.quick:
-        return [("set N=4 operands=8 depth=4", constants("set", 4, QUICK8, 4, observe_at=(0, 1, 4))),
+        return [("set N=4 operands=6 depth=4", constants("set", 4, QUICK6, 4, observe_at=(0, 1, 4))),
                 ("map N=3 depth=4", constants("map", 3, [], 4, observe_at=(0, 1, 4))),
                 ("set interleaved N=4 operands=4 depth=2", constants("set", 4, SMALL4, 2, interleave=True))]
     return [("set N=4 operands=16 depth=5", constants("set", 4, ALL16, 5, observe_at=(0, 1, 2, 5))),
-            ("map N=3 depth=5 all-operands", constants("map", 3, [], 5, max_new=3, full_map_ops=True, observe_at=(0, 1, 5))),
-            ("map N=4 depth=4", constants("map", 4, [], 4, observe_at=(0, 1, 2, 4))),
+            ("map N=3 depth=5 more-operands", constants("map", 3, [], 5, max_new=3, full_map_ops=True, observe_at=(0, 1, 5))),
+            ("map N=4 depth=4", constants("map", 4, [], 4, observe_at=(0, 1, 4))),
             ("set interleaved N=4 operands=4 depth=3", constants("set", 4, SMALL4, 3, interleave=True)),
             ("map interleaved N=3 depth=3", constants("map", 3, [], 3, interleave=True))]
 
@@ -250,7 +250,7 @@ def replay_plan(ctx, label, consts, graph, summary, reported):
     mut_edges = [e for e in edges if e[1] not in leaf]
     all_edges = set((s, d) for s, d, _ in edges)
     # from-scratch behaviours (no cloning): random maximal walks through the mutator graph
-    n_walks = 1500 if ctx.quick else 6000
+    n_walks = 1000 if ctx.quick else 3000
     walks = tlc.graph_walks(nodes, mut_edges, init, rng=ctx.rng, max_walks=n_walks, max_len=consts["MaxSteps"] + 1,
                             cover_edges=False)
     rep = Reporter(ctx, kind, n, reported)
@@ -298,7 +298,7 @@ def run(ctx):
             return
         if kind not in done_w:                               # vacuity witnesses once per data type
             done_w.add(kind)
-            witnesses(ctx, kind, consts, WITNESSES[kind][:1] if ctx.quick else WITNESSES[kind])
+            witnesses(ctx, kind, consts, WITNESSES[kind][:1] if ctx.quick else WITNESSES[kind][:2])
             if kind == "map":
                 small = dict(consts, MaxSteps=3, FullMapOps=False, ObserveAt={3},
                              MaxNew=1 if ctx.quick else 2)
